@@ -291,9 +291,10 @@ def mutation_table(algs):
     ents = entities()
     out = []
     relays = ['rs', 'a b&c=d', 'https://sp.example/return?next=%2Fhome', 'x%26Signature%3Dy', 'é€', '']
-    for a in algs:
+    for a, is_resp in itertools.product(algs, (False, True)):
         for rs in relays:
-            url = location(ents['e1'].apply_binding(BINDING_HTTP_REDIRECT, MSG, DEST, rs, sign=True, sigalg=ALGS[a]))
+            url = location(ents['e1'].apply_binding(BINDING_HTTP_REDIRECT, MSG if not is_resp else MSG.replace('AuthnRequest', 'Response'), DEST, rs,
+                                                    sign=True, sigalg=ALGS[a], response=is_resp))
             q = parse_qsl(urlsplit(url).query, keep_blank_values=True)
             names = [k for k, _v in q]
             base = dict(q)
@@ -334,9 +335,18 @@ def mutation_table(algs):
                 if d['RelayState'] != base['RelayState']:
                     muts.append(('relaystate-percent-decoded', d))
             d = dict(base)
-            d['SAMLResponse'] = d.pop('SAMLRequest')
-            muts.append(('request-relabelled-as-response', d))
-            out.append((a, rs, url, muts))
+            if 'SAMLRequest' in d:
+                d['SAMLResponse'] = d.pop('SAMLRequest')
+                muts.append(('request-relabelled-as-response', d))
+            else:
+                d['SAMLRequest'] = d.pop('SAMLResponse')
+                muts.append(('response-relabelled-as-request', d))
+                d = dict(base)
+                from saml2_tophat.s_utils import deflate_and_base64_encode
+                other = deflate_and_base64_encode('<samlp:Response xmlns:samlp="urn:oasis:names:tc:SAML:2.0:protocol" ID="forged" Version="2.0"/>')
+                d['SAMLResponse'] = other.decode() if isinstance(other, bytes) else other
+                muts.append(('message-replaced-by-another-valid-encoding', d))
+            out.append((a + ('/response' if is_resp else ''), rs, url, muts))
     return out
 
 
@@ -345,8 +355,10 @@ def eval_mutations(row):
     a, rs, url, muts = row
     ents = entities()
     res = []
-    order = ['SAMLRequest', 'RelayState', 'SigAlg']
     base = dict(muts[0][1])
+    order = ['SAMLRequest' if 'SAMLRequest' in base else 'SAMLResponse', 'RelayState', 'SigAlg']
+    if not independent_verify(url, 'spX') or independent_verify(url, 'idpA'):
+        res.append(('produced-url', {}, ['url-does-not-verify-under-requesters-certificate-only']))
     signed = '&'.join(urlencode({k: base[k]}) for k in order if k in base)
     for name, d in muts:
         typ = 'SAMLRequest' if 'SAMLRequest' in d else 'SAMLResponse'
@@ -467,7 +479,8 @@ def replay(ctx, w):
         s, res = schedules.run_schedule(mk, expand_switches(w['switches']), pkg_dir(), CRITICAL)
         why = check(res)
         return {'violation': bool(why), 'why': why}
-    rows = mutation_table([w['alg']])
+    rows = mutation_table([w['alg'].split('/')[0]])
+    rows = [r for r in rows if r[0] == w['alg']]
     for row in rows:
         if row[1] == w['relay_state']:
             _a, _rs, res = eval_mutations(row)
